@@ -1,5 +1,6 @@
 //! The verification machinery (see /verif/DESIGN.md).
 
+pub(crate) mod bfs;
 pub(crate) mod client;
 pub(crate) mod driver;
 pub(crate) mod explore;
